@@ -18,16 +18,11 @@ LoC == atoi(IOEnv.C14_LO)
 HiC == atoi(IOEnv.C14_HI)
 Step == atoi(IOEnv.C14_STEP)
 Full == IOEnv.C14_FULL = "1"
+(* C14_FULL = "m": mutant run, the constant-level anchors are switched off so *)
+(* that the refutation has to come from the sweep (ChunkOK).                  *)
+MutantRun == IOEnv.C14_FULL = "m"
 
-(* Addresses at which some rule of the specification changes.               *)
-Edges ==
-  {NBase + k * NSize(4) : k \in 0..9}
-  \cup {JABase + k * JAOuter : k \in 0..10} \cup {JABase + k * JAOuter + 10 * JAInner : k \in 0..9}
-  \cup {HLRanges[i][3] : i \in 1..3} \cup {HLRanges[i][3] + BCD(HLRanges[i][2]) - BCD(HLRanges[i][1]) + 1 : i \in 1..3}
-  \cup {NumericSchemes[i].start : i \in 1..2}
-  \cup {NumericSchemes[i].start + NumericSchemes[i].count : i \in 1..2}
-  \cup {StrideSchemes[i][1] : i \in 1..NStride} \cup {SEnd(StrideSchemes[i]) + 1 : i \in 1..NStride}
-  \cup UNION {{ICAOBlock[s][1], ICAOBlock[s][2] + 1} : s \in DOMAIN ICAOBlock}
+(* Edges (Registration.tla): addresses at which some rule changes.          *)
 EdgeChunks == UNION {{(e - 1) \div Chunk, e \div Chunk} : e \in Edges \ {0}}
 Visit == SetToSortSeq({c \in LoC..HiC : c % Step = 0 \/ c \in EdgeChunks}, LAMBDA a, b : a < b)
 
@@ -63,10 +58,11 @@ Anchors ==
      <<"F-HNAV", \h39B415>>, <<"F-HTYJ", \h39CF09>>, <<"F-GSPZ", \h3949F9>>,
      <<"D-AAAA", \h3C4421>>, <<"D-APAA", \h3C0001>>, <<"VH-AAA", \h7C0000>>,
      <<"C-FAAA", \hC00001>>, <<"CU-T1000", \h0B03E8>> >>
-ASSUME AnchorsOK ==
+AnchorsHold ==
   \A k \in 1..Len(Anchors) :
     /\ AddrOf(Chars(Anchors[k][1])) = Anchors[k][2]
     /\ RegOf(Anchors[k][2]) = Chars(Anchors[k][1])
+ASSUME AnchorsOK == MutantRun \/ AnchorsHold
 (* not registrations of any scheme *)
 ASSUME RejectsOK ==
   \A s \in {"N0", "N1I", "N1O", "N123456", "N1AAA", "N1A1", "N1234AB", "JA00I0", "JA0A0A",
@@ -92,7 +88,7 @@ OntoStride(m) == \A r \in StrideRegs(m) :
                    LET l == SubSeq(r, Len(m[4]) + 1, Len(r)) IN
                    (SOfs(m, l) >= SOfs(m, m[5]) /\ SOfs(m, l) <= SOfs(m, m[6])) =>
                      (AddrOf(r) # NoAddr /\ RegOf(AddrOf(r)) = r)
-ASSUME OntoOK ==
+Onto ==
   /\ \A n \in (7200..7799) \cup (8000..8099) \cup (8200..8299) : RegOf(AddrOf(HLReg(n))) = HLReg(n)
   /\ \A n \in 1000..1999 : LET r == <<67, 85, 45, 84>> \o DecW(n, 4) IN RegOf(AddrOf(r)) = r
   /\ \A k \in 1..NStride :
@@ -100,4 +96,13 @@ ASSUME OntoOK ==
        \A l \in {m[5], m[6]} : RegOf(AddrOf(m[4] \o l)) = m[4] \o l
   /\ Full => /\ \A n \in 0..99999 : LET r == <<82, 65, 45>> \o DecW(n, 5) IN RegOf(AddrOf(r)) = r
              /\ \A k \in 1..NStride : OntoStride(StrideSchemes[k])
+ASSUME OntoOK == MutantRun \/ Onto
+
+---------------------------------------------------------------------------
+(* Spec mutant (MC_Registration_mutant.cfg substitutes it for              *)
+(* StrideSchemes): the first D-A range runs to ZZZ instead of OZZ, so that *)
+(* D-APAA .. D-AZZZ are allocated twice.  ChunkOK must fail on it: the     *)
+(* left-inverse check has teeth.                                           *)
+MutantStrideSchemes ==
+  [PublishedStrideSchemes EXCEPT ![6] = <<\h3C4421, 1024, 32, <<68, 45, 65>>, AAA, ZZZ>>]
 =============================================================================
